@@ -99,6 +99,25 @@ def run(ctx):
     for bus, port_, tag in ((32, 32, "equal width"), (64, 32, "wider bus")):
         v = wb_view(ctx, bus, port_)
         ack_rules(ctx, ob1, v, tag)
+        # every read of this path waits for its data before it acknowledges, so every read command must ask for its data now (cmd.last): a converter behind the
+        # port may otherwise hold the beat back for merging and the access is never acknowledged
+        cl = [l for l in v.leaves if l.kind == "assign" and key(l.target).endswith("port.cmd.last") and l.fsm is None and l.inst == ""]
+        if ob1.need(len(cl) >= 1, "%s: driver of port.cmd.last not found" % tag):
+            conds = []
+            for l in cl:
+                t_ = Const(1)
+                for x_ in leaf_cond(l):
+                    t_ = Op("&", (t_, expand_term(v, x_)))
+                conds.append(t_)
+            lastv = conds[0]
+            for t_ in conds[1:]:
+                lastv = Op("|", (lastv, t_))
+            okl, cex = implies([Op("~", (Sym(WE),))], [lastv])
+            ob1.instance("%s: port.cmd.last" % tag, {"value": key(lastv)[:160], "set for every read": okl})
+            if okl is False:
+                ob1.refute("%s:read-not-last" % tag, "%s: a read command can be issued with port.cmd.last = 0 (%s false under %s): the bridge waits for that read's data before it "
+                           "acknowledges, but a width converter behind the port keeps a non-last command for merging - the access hangs" %
+                           (tag, key(lastv)[:120], sorted(k_ for k_, x_ in cex.items() if x_)), cl[0].loc)
         if bus == port_:
             # one data beat per command: with equal widths the write data may only be offered in the state entered after the write command
             # was accepted (last assignment wins over the unconditional stb & we)
